@@ -249,9 +249,23 @@ class _Ctx:
             return {"c": "or", "xs": xs}
         if k in ("and", "or"):
             n = d(st.integers(2, 3))
-            noq2 = noq or (neg and not cfg.allow_quantifier_under_compound_negation) or (
-                k == "or" and not cfg.allow_quantifier_in_or)
-            return {"c": k, "xs": [self.cond(scope, depth - 1, neg, noq2) for _ in range(n)]}
+            noq2 = noq or (neg and not cfg.allow_quantifier_under_compound_negation)
+            xs = [self.cond(scope, depth - 1, neg, noq2) for _ in range(n)]
+            if k == "or" and not cfg.allow_quantifier_in_or and not noq2:
+                # a quantifier operand is fine in a union step of the or_ chain; in an else-if step (same variables on
+                # both sides) it is replaced by an atom while that finding stands
+                from .features import or_chain
+
+                fake = {"dvars": self.dvars, "vars": self.vars}
+                for _ in range(len(xs)):
+                    steps = or_chain(fake, {"c": "or", "xs": xs})
+                    bad = [j for j, (u, q) in enumerate(steps) if (not u) and q]
+                    if not bad:
+                        break
+                    j = bad[0]
+                    victims = [m for m in range(j + 2) if _has_q(xs[m])]
+                    xs[victims[-1]] = self.atom(scope)
+            return {"c": k, "xs": xs}
         if k == "not":
             if cfg.fragment == "c02" or not cfg.allow_not_compound:
                 return {"c": "not", "x": self.atom(scope)}
@@ -361,6 +375,12 @@ class _Ctx:
                 n["c"] in ("exists", "forall") for n in walk_conds(c)):
             return extra
         return {"c": "and", "xs": [c, extra]}
+
+
+def _has_q(c):
+    from .lang import walk_conds
+
+    return any(n["c"] in ("exists", "forall") for n in walk_conds(c))
 
 
 def _domain(cfg: Cfg, n_objs: int, noise: bool):
